@@ -67,15 +67,41 @@ def lib():
     return _L
 
 
+class FakePlayer:
+    """What the sound-card player looks like to PlayerWorker: play() writes to an output stream, stop() closes it,
+    writing to a closed stream fails."""
+
+    def __init__(self):
+        self.played = []
+        self.closed = False
+
+    def play(self, data, progress_bar=False, **kwargs):
+        if self.closed:
+            raise OSError("Stream closed")
+        self.played.append(bytes(data))
+
+    def stop(self):
+        self.closed = True
+
+
 class LogReader:
     """Transparent proxy that logs what read() handed out."""
+
+    close_fault = False
 
     def __init__(self, reader):
         self._r = reader
         self.blocks = []
         self.nones = 0
+        self.started = 0
+
+    def close(self):
+        self._r.close()
+        if self.close_fault:
+            raise OSError("injected fault: the device reports an error on close")
 
     def read(self):
+        self.started += 1
         b = self._r.read()
         if b is None:
             self.nones += 1
@@ -155,11 +181,12 @@ def make_factory(cfg):
             return make_cli(ctx, cfg, data, sw, ch)
         inner = L["util"].AudioReader(data, block_dur=BLOCK, hop_dur=cfg.get("hop"), sr=sr, sw=sw, ch=ch)
         ctx.inner = LogReader(inner)
+        ctx.inner.close_fault = bool(cfg.get("close_fault"))
         reader = ctx.inner
         ctx.saver = None
         ctx.outer = None
         if cfg.get("saver"):
-            ctx.saver_file = os.path.join(ctx.dir, "stream.wav")
+            ctx.saver_file = os.path.join(ctx.dir, "stream" if cfg.get("noext") else "stream.wav")
             ctx.saver = w.StreamSaverWorker(ctx.inner, ctx.saver_file, cache_size_sec=cfg.get("cache", 0.5))
             ctx.outer = LogReader(ctx.saver)
             reader = ctx.outer
@@ -172,17 +199,27 @@ def make_factory(cfg):
             elif o == "crash":
                 x = L["Crash"]()
                 ctx.crashers = getattr(ctx, "crashers", []) + [x]
+            elif o == "play":
+                pl = FakePlayer()
+                x = w.PlayerWorker(pl)
+                ctx.players = getattr(ctx, "players", []) + [pl]
             elif o == "print":
                 x = w.PrintWorker("{id} {start} {end} {duration}", "%S")
                 ctx.printers.append(x)
             elif o == "join":
-                fn = os.path.join(ctx.dir, "joined%d.wav" % len(ctx.joiners))
+                fn = os.path.join(ctx.dir, ("joined%d" if cfg.get("noext") else "joined%d.wav") % len(ctx.joiners))
                 x = w.AudioEventsJoinerWorker(cfg.get("silence", 0.1), fn, None, sr, sw, ch)
                 x._verif_file = fn
+                if cfg.get("join_fault"):
+                    _inject_write_fault(x, cfg["join_fault"])
                 ctx.joiners.append(x)
             elif o == "regsave":
                 tpl = os.path.join(ctx.dir, cfg.get("template", "ev_{id}.wav"))
-                x = w.RegionSaverWorker(tpl)
+                for stale in cfg.get("preexisting", ()):
+                    # files of an earlier run under the same names
+                    with open(tpl.format(id=stale, start=0.0, end=0.1, duration=0.1), "wb") as fp:
+                        fp.write(b"stale file of an earlier run")
+                x = w.RegionSaverWorker(tpl, **cfg.get("regsave_extra", {}))
                 ctx.regsavers.append(x)
             else:
                 raise ValueError(o)
@@ -204,6 +241,7 @@ def make_factory(cfg):
 
             logger.addHandler(_H())
         ctx.tw = w.TokenizerWorker(reader, obs, logger=logger, **dict(SPLIT_VARIANTS[cfg["split"]], **cfg.get("split_extra", {})))
+        _log_stop_request(ctx, ctx.tw)
         ctx.second = None
         if cfg.get("second"):
             # a second, independent pipeline in the same process (own reader, own saver, own observers)
@@ -245,6 +283,36 @@ def make_factory(cfg):
     return make
 
 
+def _inject_write_fault(saver, k):
+    """The k-th write to the saver's output fails as a full disk does."""
+    wfp = saver._wfp
+    real = wfp.writeframes
+    count = [0]
+
+    def writeframes(data):
+        count[0] += 1
+        if count[0] == k:
+            raise OSError(28, "injected fault: No space left on device")
+        return real(data)
+
+    wfp.writeframes = writeframes
+
+
+def _log_stop_request(ctx, tw):
+    """Remember how many source reads had been started when the stop request reached the tokenizer worker."""
+    stop_msg = lib()["w"]._STOP_PROCESSING
+    real_send = tw.send
+    ctx.started_at_stop = None
+
+    def send(message):
+        real_send(message)
+        if message is stop_msg or (isinstance(message, str) and message == stop_msg):
+            if ctx.started_at_stop is None and getattr(ctx, "inner", None) is not None:
+                ctx.started_at_stop = ctx.inner.started
+
+    tw.send = send
+
+
 def make_cli(ctx, cfg, data, sw, ch):
     """The real cmdline.main(argv) as the controlled main thread."""
     L = lib()
@@ -267,17 +335,22 @@ def make_cli(ctx, cfg, data, sw, ch):
     if kw.get("drop_trailing_silence"):
         argv.append("-d")
     for a in cfg["argv"]:
-        argv.append(a.replace("@", ctx.dir + "/"))
+        argv.append(a.replace("<WD>", ctx.dir + "/"))
     ctx.saver_file = os.path.join(ctx.dir, "stream.raw" if any("stream.raw" in a for a in cfg["argv"]) else "stream.wav")
+    for stale in cfg.get("preexisting", ()):
+        with open(os.path.join(ctx.dir, "ev_%d.wav" % stale), "wb") as fp:
+            fp.write(b"stale file of an earlier run")
 
     class LoggingAudioReader(L["util"].AudioReader):
         def __init__(self, *a, **k):
             super().__init__(*a, **k)
             self.blocks = []
             self.nones = 0
+            self.started = 0
             ctx.inner = self
 
         def read(self):
+            self.started += 1
             b = super().read()
             if b is None:
                 self.nones += 1
@@ -290,6 +363,7 @@ def make_cli(ctx, cfg, data, sw, ch):
     def init_workers(**kwargs):
         saver, tw = real_init(**kwargs)
         ctx.tw = tw
+        _log_stop_request(ctx, tw)
         w = L["w"]
         if isinstance(saver, w.StreamSaverWorker):
             ctx.saver = saver
@@ -379,6 +453,11 @@ def check(ex, ctx):
     if cfg["kind"] == "cli" and ctx.status != 0:
         return "cmdline.main returned %r" % (ctx.status,)
     if cfg["kind"] in ("stop", "cli"):
+        at_stop = getattr(ctx, "started_at_stop", None)
+        if at_stop is not None and ctx.inner.started - at_stop > 1:
+            # one read may already have passed its stop test when the request arrives; anything beyond that is new reading
+            return "the tokenizer worker went on reading after the stop request: %d reads had been started then, %d in the end" % (
+                at_stop, ctx.inner.started)
         k = len(ctx.inner.blocks)
         seen = b"".join(ctx.inner.blocks)
         if seen != ctx.data[: len(seen)]:
@@ -408,6 +487,10 @@ def check(ex, ctx):
         if r.log != want:
             return "observer #%d processed ids %s, split() of %s gives ids %s (or data/start differ)" % (
                 n, _short([x[0] for x in r.log]), what, _short([x[0] for x in want]))
+    for n, pl in enumerate(getattr(ctx, "players", ())):
+        if pl.played != [d for i, d, s in want]:
+            return "player #%d played %d detections %r, split() of %s gives %d" % (
+                n, len(pl.played), [len(x) for x in pl.played], what, len(want))
     if ctx.printers:
         fmt = "{:.3f}".format
         lines = ["%d %s %s %s" % (i, fmt(s), fmt(e), fmt(du)) for i, d, s, e, du in exp]
@@ -416,7 +499,7 @@ def check(ex, ctx):
             return "printed lines %r, expected %r" % (got, lines)
         if len(ctx.printers) == 1 and got != lines:
             return "printed lines out of order: %r" % (got,)
-    for j in ctx.joiners:
+    for j in (ctx.joiners if "AudioEventsJoinerWorker" not in tolerate else ()):
         try:
             sr_, sw_, ch_, frames = _read_wav(j._verif_file)
         except Exception as exc:
@@ -631,6 +714,18 @@ def plan(prop, tier):
             tasks.append((dict(kind="run", pattern=p, observers=["rec", "print"], split="s0", logger=True), 1, 0, "sync", None, None))
         # two independent pipelines in one process
         tasks.append((dict(kind="run", pattern="AaA", second="AAAA", observers=["rec"], split="s0"), 0, 0, "sync", None, None))
+        for p in ("AaA", "AAAA"):
+            tasks.append((dict(kind="run", pattern=p, observers=["play", "rec"], split="s2"), 1, 0, "sync", None, None))
+        # environment faults the other threads must survive: the reader fails when closed at the end of the stream;
+        # a file-writing observer dies of a full disk at its k-th write; files of an earlier run already carry the names
+        for p in ("", "AaA", "AAAA"):
+            tasks.append((dict(kind="run", pattern=p, observers=["rec", "print"], split="s2", close_fault=True,
+                               tolerate_crash=["TokenizerWorker"]), 1, 0, "sync", None, None))
+        for k in (1, 2):
+            tasks.append((dict(kind="run", pattern="AAAA", observers=["join", "rec"], split="s2", join_fault=k,
+                               tolerate_crash=["AudioEventsJoinerWorker"]), 1, 0, "sync", None, None))
+        tasks.append((dict(kind="run", pattern="AAaA", observers=["regsave", "rec"], split="s2", preexisting=[2, 3]), 1, 0, "sync", None, None))
+        tasks.append((dict(kind="cli", pattern="AAaA", observers=[], split="s2", argv=["-o", "<WD>ev_{id}.wav"], preexisting=[2]), 1, 0, "sync", None, None))
         # channel selection given to the worker (long name and alias) on stereo audio whose channels differ
         for extra in ({"use_channel": 0}, {"uc": 1}, {"uc": "mix"}, {"use_channel": -1, "eth": 60}):
             tasks.append((dict(kind="run", pattern="LRaA", observers=["rec"], split="s2", ch=2, split_extra=extra), 1, 0, "sync", None, None))
@@ -665,7 +760,7 @@ def plan(prop, tier):
             tasks.append((dict(kind="stop", pattern=p, observers=["rec"], split="s1d", saver=True, cache=0.15), K, 0, "sync", None, None))
         # the real command line program, Ctrl-C arriving in any sleep of the main loop
         for p in (["", "A", "AaA", "AAAA"] if quick else all_patterns(4)):
-            for argv in ([], ["-O", "@stream.wav"], ["-q", "-O", "@stream.wav", "-j", "0.1"], ["-o", "@ev_{id}.wav"]):
+            for argv in ([], ["-O", "<WD>stream.wav"], ["-q", "-O", "<WD>stream.wav", "-j", "0.1"], ["-o", "<WD>ev_{id}.wav"]):
                 if quick and len(p) > 3 and len(argv) > 2:
                     continue
                 tasks.append((dict(kind="cli", pattern=p, observers=[], split="s0", argv=argv), 0 if quick else 1, 1, "sync", None, None))
@@ -678,8 +773,13 @@ def plan(prop, tier):
         tasks.append((dict(kind="stop", pattern="AAA", observers=["regsave", "print"], split="s2"), 0, 0, "sync", None, None))
         tasks.append((dict(kind="stop", pattern="AAAAA", observers=["join"], split="s0", saver=True, cache=0.1, sw=1, ch=3), 0, 0, "sync", None, None))
         for p in (["AaA"] if quick else ["A", "AaA", "AAAA"]):
-            tasks.append((dict(kind="cli", pattern=p, observers=[], split="s0", argv=["-O", "@stream.raw"]), 0, 1, "sync", None, None))
+            tasks.append((dict(kind="cli", pattern=p, observers=[], split="s0", argv=["-O", "<WD>stream.raw"]), 0, 1, "sync", None, None))
         tasks.append((dict(kind="stop", pattern="A" * 300, observers=["rec"], split="s2", saver=True, cache=0.5), 10 ** 6, 0, "directed", None, None))
+        for p in ("AaA", "AAAA"):
+            tasks.append((dict(kind="stop", pattern=p, observers=["play"], split="s2"), K, 0, "sync", None, None))
+        # stops arriving deep inside a silence / between detections, with plenty of stream left
+        for p in (["aaaAA", "AaaaaA"] if quick else ["aaaAA", "AaaaaA", "aaaaaA", "AAaaaaAA"]):
+            tasks.append((dict(kind="stop", pattern=p, observers=["rec"], split="s0"), 0 if quick else 1, 0, "sync", None, None))
         # an observer dies on its first message; the stop must still end everything (also with > 1000 later detections)
         for p in ("AaA", "AAAA"):
             tasks.append((dict(kind="stop", pattern=p, observers=["crash", "rec"], split="s2"), K, 0, "sync", None, None))
@@ -687,8 +787,8 @@ def plan(prop, tier):
         # joins that give up (a timeout on join) must not be taken for termination
         tasks.append((dict(kind="stop", pattern="AaA", observers=["rec"], split="s0", saver=True, cache=0.1), 2, 0, "sync", None, None))
         tasks.append((dict(kind="stop", pattern="AAaA", observers=["rec", "print"], split="s0", saver=True, cache=0.1), 1, 0, "race", 2 if quick else 3, None))
-        tasks.append((dict(kind="cli", pattern="AaA", observers=[], split="s0", argv=["-O", "@stream.wav"]), 0, 1, "race", 2, None))
-        tasks.append((dict(kind="cli", pattern="AAAA", observers=[], split="s0", argv=["-q", "-O", "@stream.wav", "-j", "0.1", "-o", "@ev_{id}.wav"]), 0, 1, "race", 2, None))
+        tasks.append((dict(kind="cli", pattern="AaA", observers=[], split="s0", argv=["-O", "<WD>stream.wav"]), 0, 1, "race", 2, None))
+        tasks.append((dict(kind="cli", pattern="AAAA", observers=[], split="s0", argv=["-q", "-O", "<WD>stream.wav", "-j", "0.1", "-o", "<WD>ev_{id}.wav"]), 0, 1, "race", 2, None))
     if prop == "C13":
         L = 4 if quick else 5
         caches = [0, 0.1, 0.15, 1000]
@@ -712,6 +812,14 @@ def plan(prop, tier):
                 for tpl in ("ev_{id}.wav", "ev_{id}_{start}_{end}.wav", "ev_{duration:.3f}_{id}.wav"):
                     tasks.append((dict(base, pattern=p, observers=["join", "regsave"], silence=sil, template=tpl),
                                   0, 0, "sync", None, None))
+        # output names without an extension (the format then defaults to wav) under a directory whose name has a dot;
+        # encoder keyword arguments handed to the region saver (they describe no audio: the detection's own parameters count)
+        tasks.append((dict(base, pattern="AaA", observers=["join", "regsave"], saver=True, cache=0.1, noext=True), 0, 0, "sync", None, None))
+        tasks.append((dict(base, pattern="AaA", observers=["regsave"], regsave_extra={"sampling_rate": 3 * SR, "sample_width": 1, "channels": 1}),
+                      0, 0, "sync", None, None))
+        tasks.append((dict(base, pattern="AaA", observers=["regsave"], regsave_extra={"sr": 3 * SR, "sw": 1, "ch": 1}, sw=2, ch=2),
+                      0, 0, "sync", None, None))
+        tasks.append((dict(base, pattern="AAaA", observers=["regsave"], split="s2", preexisting=[1, 3]), 0, 0, "sync", None, None))
         # another audio format, another split setting
         for p in (["AaA"] if quick else ["AaA", "AAAA"]):
             for c in (0.1, 1000):
